@@ -11,7 +11,7 @@ from __future__ import annotations
 import ast, copy
 from .core import dotted, src
 
-MAX_NODES = 6000
+MAX_NODES = 60000
 
 
 def N(id_):
